@@ -231,6 +231,58 @@ func VerifSingleFrames() {
 	verifReach("frames")
 }
 
+// VerifResend: a call is sent, its region is replaced (split, merge, table re-created: the
+// client calls SetRegion before every attempt) and it is sent again, as the retry loop does:
+// the second frame names the new region, keeps row and method, and has a fresh call id.
+func VerifResend() {
+	conn := &vConn{}
+	c := vNewClient(conn, 1)
+	regA, regB := vReg("t,,1"), vReg("t,,2")
+	ctx := context.Background()
+	var cl hrpc.Call
+	method := ""
+	switch verifInt(0, 2) {
+	case 0:
+		g, _ := hrpc.NewGet(ctx, []byte("t"), []byte("a"))
+		cl, method = g, "Get"
+	case 1:
+		cl, method = vPutVals(ctx, "a", regA, 1), "Mutate"
+	case 2:
+		cl, method = vScan(ctx, regA), "Scan"
+	}
+	cl.SetRegion(regA)
+	verifAssert(c.trySend(cl) == nil, "send")
+	cl.SetRegion(regB)
+	verifAssert(c.trySend(cl) == nil, "send again")
+	stream := conn.wrote
+	var ids []uint32
+	for i, reg := range []hrpc.RegionInfo{regA, regB} {
+		f := vParseFrame(stream)
+		verifAssert(f.ok, "the stream is a sequence of whole frames")
+		stream = f.rest
+		verifAssert(f.hdr.GetMethodName() == method, "the header names the method of the request")
+		ids = append(ids, f.hdr.GetCallId())
+		var spec *pb.RegionSpecifier
+		switch r := f.req.(type) {
+		case *pb.GetRequest:
+			spec = r.Region
+			verifAssert(string(r.Get.Row) == "a", "the get addresses the row the caller asked for")
+		case *pb.MutateRequest:
+			spec = r.Region
+			verifAssert(string(r.Mutation.Row) == "a", "the mutation addresses the row the caller asked for")
+		case *pb.ScanRequest:
+			spec = r.Region
+		default:
+			verifFail("unexpected request type in frame")
+		}
+		verifAssert(spec != nil && string(spec.Value) == string(reg.Name()), "every attempt names the region the call is assigned to at that moment")
+		_ = i
+	}
+	verifAssert(ids[0] != ids[1], "the second attempt has its own call id")
+	verifAssert(len(stream) == 0, "nothing but the frames is written")
+	verifReach("resent")
+}
+
 // VerifMultiFrame: calls over two regions grouped into one multi-request (every interleaving
 // of the regions in the batch, every iteration order of the per-region map): the cellblocks
 // follow the order of the region actions in the request, so that the server, which hands out
@@ -345,6 +397,71 @@ func VerifConcurrentSenders() {
 	}
 	verifAssert(len(stream) == 0, "nothing but the two frames is written")
 	verifReach("two-senders")
+}
+
+// vPlainCodec: a lossless codec whose Encode is a scheduling point (a real codec takes time).
+type vPlainCodec struct{}
+
+func (vPlainCodec) Encode(src, dst []byte) ([]byte, uint32) {
+	verifYield()
+	verifJitter()
+	return append(dst, src...), uint32(len(src))
+}
+func (vPlainCodec) Decode(src, dst []byte) ([]byte, uint32, error) {
+	return append(dst, src...), uint32(len(src)), nil
+}
+func (vPlainCodec) ChunkLen() uint32                 { return 256 }
+func (vPlainCodec) CellBlockCompressorClass() string { return "verif.Plain" }
+
+// vCellRow returns the row of the first KeyValue of a cellblock ("" if malformed).
+func vCellRow(b []byte) string {
+	if len(b) < 14 {
+		return ""
+	}
+	rl := int(b[12])<<8 | int(b[13])
+	if len(b) < 14+rl {
+		return ""
+	}
+	return string(b[14 : 14+rl])
+}
+
+// VerifCompressConcurrent (C15/C05): two senders on one connection with cellblock compression
+// (the caller of an unbatched put and the batching goroutine flushing a multi): under every
+// interleaving - in particular one sender entering the codec while the other is between
+// gathering its chunk and encoding it - each frame carries the compressed form of its own
+// request's cells.
+func VerifCompressConcurrent() {
+	conn := &vConn{}
+	c := vNewClient(conn, 4)
+	c.compressor = &compressor{Codec: vPlainCodec{}}
+	reg := vReg("t,,1")
+	ctx := context.Background()
+	single := vPutVals(ctx, "a", reg, 1)
+	m := newMulti(4)
+	m.add([]hrpc.Call{vPutVals(ctx, "b", reg, 1)})
+	done := make(chan struct{})
+	go func() {
+		verifAssert(c.trySend(m) == nil, "send multi")
+		close(done)
+	}()
+	verifAssert(c.trySend(single) == nil, "send single call")
+	<-done
+	stream := conn.wrote
+	for i := 0; i < 2; i++ {
+		f := vParseFrame(stream)
+		verifAssert(f.ok, "the stream is a concatenation of whole frames")
+		cells, err := c.compressor.decompressCellblocks(f.cells)
+		verifAssert(err == nil, "the frame's cellblock decompresses")
+		verifAssert(vCountCells(cells) == 1, "one whole cell per frame")
+		want := "a"
+		if f.hdr.GetMethodName() == "Multi" {
+			want = "b"
+		}
+		verifAssert(vCellRow(cells) == want, "the frame carries its own request's cells, not the other sender's")
+		stream = f.rest
+	}
+	verifAssert(len(stream) == 0, "nothing but the two frames is written")
+	verifReach("two-compressing-senders")
 }
 
 // VerifHello: the connection preamble and header come first.
